@@ -164,6 +164,30 @@ class Session:
                 for sp in objs:
                     if sp.name in st["values"]:
                         sp.binding_energy = st["values"][sp.name]
+            elif kind == "sib_new":
+                # a second network of the same session, built from the first one's reactions: either
+                # from the very list object the first network holds or from a copy of it.  Editing
+                # the sibling afterwards must not change what the first network renders.
+                src = self.net.reaction_list if st.get("how") == "same_list" else list(self.net.reaction_list)
+                self.sib = N.Network(reactions=src, **self.net_kwargs(None))
+            elif kind == "sib_rm":
+                if self.sib.reaction_list:
+                    self.sib.remove_reaction(0)
+            elif kind == "sib_add":
+                if self.net.reaction_list:
+                    import copy
+
+                    r = copy.copy(self.net.reaction_list[0])  # same class (KROME rates live in the instance)
+                    r.alpha = 9.9e-10
+                    self.sib.add_reaction(r)
+            elif kind == "sib_allowed":
+                if self.net.reaction_list:
+                    r0 = self.net.reaction_list[-1]
+                    self.sib.allowed_species = sorted({sp.name for sp in r0.reactants + r0.products})
+            elif kind == "sib_render":
+                out = os.path.join(self.dir, "sib_out")
+                shutil.rmtree(out, ignore_errors=True)
+                self.sib.to_code(solver=st["solver"], method=st["method"], device=st["device"], path=out)
             elif kind == "touch":
                 # read-only inspection, as in a notebook
                 _ = [s.alias for s in self.net.species]
